@@ -48,6 +48,52 @@ func add(a, b *big.Int) *big.Int { return new(big.Int).Add(a, b) }
 func sub(a, b *big.Int) *big.Int { return new(big.Int).Sub(a, b) }
 func modN(a *big.Int) *big.Int   { return new(big.Int).Mod(a, bigN) }
 
+// wideValues returns integers far above the range whose LOW `width` bytes are
+// the valid in-range value v: v + j*2^(8w) for w = width .. width+8, 2*width,
+// 4*width and j in {1, 0x80, 0xff, a random multi-byte value}. From w = width+1
+// on the byte just above the low part is zero and the non-zero bytes sit
+// further up, so a loader that only looks at the next byte, or at a fixed
+// number of bytes, would silently truncate to v. Plus 2^k up to 2^1024 and
+// all-0xff strings of width+1 .. 2*width+2 bytes.
+func wideValues(v *big.Int, width int, seed uint64) []struct {
+	name string
+	v    *big.Int
+} {
+	var out []struct {
+		name string
+		v    *big.Int
+	}
+	put := func(name string, x *big.Int) {
+		out = append(out, struct {
+			name string
+			v    *big.Int
+		}{name, x})
+	}
+	ws := []int{}
+	for w := width; w <= width+8; w++ {
+		ws = append(ws, w)
+	}
+	ws = append(ws, 2*width, 4*width)
+	for _, w := range ws {
+		js := []*big.Int{bi(1), bi(0x80), bi(0xff), new(big.Int).SetBytes(gen.Fill(gen.Mix(seed, uint64(w)), 1+w%5))}
+		for ji, j := range js {
+			if j.Sign() == 0 {
+				j = bi(3)
+			}
+			put(fmt.Sprintf("v+j*2^(8*(w+%d))", w-width), add(v, new(big.Int).Lsh(j, uint(8*w))))
+			_ = ji
+		}
+	}
+	for _, k := range []uint{uint(8*width + 8), uint(8*width + 9), 512, 521, 1023, 1024} {
+		put("2^k", new(big.Int).Lsh(one, k))
+		put("v+2^k", add(v, new(big.Int).Lsh(one, k)))
+	}
+	for _, l := range []int{width + 1, width + 2, 2 * width, 2*width + 2} {
+		put("all-ff", sub(new(big.Int).Lsh(one, uint(8*l)), one))
+	}
+	return out
+}
+
 // ---------------------------------------------------------------- randomness for the library
 
 // detReader is the deterministic random source handed to the library. Reads
